@@ -46,7 +46,14 @@ func (u *Unit) heapResolve(heaps map[string]Term, epoch int, layer *heapLayer, k
 		isNew := !u.declared[quoteSym(name)]
 		h := u.declareOnce(name, hs)
 		if isNew {
+			// the well-formedness fact is stored with the declaration (cmds), so that it survives the speculative
+			// passes that discard facts but keep declarations
+			nf := len(u.facts)
 			u.heapWF(h, vs, u.epochAlloc[epoch])
+			for _, f := range u.facts[nf:] {
+				u.cmds = append(u.cmds, "(assert "+f+")")
+			}
+			u.facts = u.facts[:nf]
 		}
 		return h
 	}
@@ -258,6 +265,23 @@ func (fr *Frame) freshResults(results *types.Tuple, st *State, prefix string) []
 	return res
 }
 
+// unknownCallKeepGhost: like unknownCall, but the iterator-protocol ghosts are kept.
+func (fr *Frame) unknownCallKeepGhost(key string, results *types.Tuple, st *State, pos token.Pos) ([]Term, *State) {
+	saved := map[string]Term{}
+	for g, t := range st.ghost {
+		if strings.HasPrefix(g, "stopped_") {
+			saved[g] = t
+		}
+	}
+	res, out := fr.unknownCall(key, results, st, pos)
+	if out != nil {
+		for g, t := range saved {
+			out.ghost[g] = t
+		}
+	}
+	return res, out
+}
+
 // unknownCall: nothing is known about the callee: all heaps are havocked.
 func (fr *Frame) unknownCall(key string, results *types.Tuple, st *State, pos token.Pos) ([]Term, *State) {
 	u := fr.u
@@ -441,6 +465,20 @@ func (fr *Frame) callDynamic(fv Term, c *ssa.CallCommon, args []Term, st *State,
 					continue
 				}
 				u.oblige(fr, "cb-assume", pos, fmt.Sprintf("callback %s is invoked in a state satisfying %s", p.Name(), cl.Text), st.pc, v.t, false)
+			}
+			if cb.Stops && sig.Results().Len() == 1 {
+				// iterator protocol: no further invocation after the callback returned false
+				gname := "stopped_" + p.Name()
+				stopped, has := st.ghost[gname]
+				if !has {
+					stopped = False
+				}
+				u.oblige(fr, "cb-stop", pos, fmt.Sprintf("callback %s is not invoked again after it returned false", p.Name()), st.pc, Not(stopped), false)
+				res, out := fr.unknownCallKeepGhost(fr.srcText(pos, "callback"), sig.Results(), st, pos)
+				if out != nil && len(res) == 1 && res[0].Sort == SBool {
+					out.ghost[gname] = u.define("stopped", Or(stopped, Not(res[0])))
+				}
+				return res, out
 			}
 		}
 	}
